@@ -172,12 +172,17 @@ func (s *Script) String() string {
 // Match returns true if the script returns true when evaluated against the
 // data argument.
 func (s *Script) Match(data any) bool {
+	return s.matchWithRoot(data, data)
+}
+
+// matchWithRoot is like Match but a $ in the script refers to root.
+func (s *Script) matchWithRoot(data, root any) bool {
 	stack := []any{}
 	if node, ok := data.(gen.Node); ok {
-		ns, _ := s.evalWithRoot(stack, gen.Array{node}, data)
+		ns, _ := s.evalWithRoot(stack, gen.Array{node}, root)
 		stack, _ = ns.([]any)
 	} else {
-		ns, _ := s.evalWithRoot(stack, []any{data}, data)
+		ns, _ := s.evalWithRoot(stack, []any{data}, root)
 		stack, _ = ns.([]any)
 	}
 	return 0 < len(stack)
